@@ -99,3 +99,46 @@ Theorem plain_dict_is_case_sensitive :
    check_unknown_with getChannel_plain d (NAME_SQ ++ COMMA :: CAP_X) false = Ok false /\
    check_unknown_with getChannel_plain d (NAME_CU ++ COMMA :: CAP_X) false = Ok true).
 Proof. vm_compute. auto 6. Qed.
+
+(* ---- the length bound of a channel name is inclusive ----
+   ircutils.isChannel: len(s) <= channellen.  ircdb.isChannelCapability /
+   isAntiCapability / fromChannelCapability rest on it, so a name of exactly
+   channellen characters still opens the channel branch of checkCapability. *)
+Theorem isChannel_spec s :
+  isChannel s = true <->
+  s <> [] /\ mem COMMA s = false /\ mem BEL s = false /\ hd_in gen.T03.CHANTYPES s = true /\
+  (length s <= gen.T03.CHANNELLEN)%nat /\ one_word s = true.
+Proof.
+  unfold isChannel. rewrite !andb_true_iff, !negb_true_iff, Nat.leb_le.
+  split.
+  - intros [[[[[H1 H2] H3] H4] H5] H6]. repeat split; try assumption. intro E. subst. discriminate.
+  - intros [H1 [H2 [H3 [H4 [H5 H6]]]]]. repeat split; try assumption. destruct s; [congruence|reflexivity].
+Qed.
+
+(* '#' followed by n-1 letters 'b': a name of exactly n characters *)
+Definition name_of_len (n : nat) : str := 35 :: repeat 98 (n - 1).
+
+(* with the regenerated CHANNELLEN: exactly CHANNELLEN characters is a channel,
+   one more is not; and '<name>,x' / '<name>,-x' then are a channel capability
+   and its anti-capability (so the decision list of C03_refines_spec_flags takes
+   its channel branch for them) *)
+Theorem channel_length_boundary :
+  length (name_of_len gen.T03.CHANNELLEN) = gen.T03.CHANNELLEN /\
+  isChannel (name_of_len gen.T03.CHANNELLEN) = true /\
+  isChannel (name_of_len (S gen.T03.CHANNELLEN)) = false /\
+  chan_parts (name_of_len gen.T03.CHANNELLEN ++ COMMA :: [120]) = Some (name_of_len gen.T03.CHANNELLEN, [120]) /\
+  isAntiCapability (name_of_len gen.T03.CHANNELLEN ++ COMMA :: DASH :: [120]) = true /\
+  chan_parts (name_of_len (S gen.T03.CHANNELLEN) ++ COMMA :: [120]) = None.
+Proof. vm_compute. auto 8. Qed.
+
+(* every name that passes the other tests and is exactly CHANNELLEN long opens the channel branch *)
+Theorem boundary_name_is_channel_capability chn x :
+  chn <> [] -> mem COMMA chn = false -> mem BEL chn = false -> hd_in gen.T03.CHANTYPES chn = true ->
+  one_word chn = true -> length chn = gen.T03.CHANNELLEN -> isCapability x = true ->
+  chan_parts (chn ++ COMMA :: x) = Some (chn, x).
+Proof.
+  intros H1 H2 H3 H4 H5 H6 Hx.
+  assert (Hc : isChannel chn = true) by (apply isChannel_spec; repeat split; try assumption; lia).
+  unfold chan_parts, isChannelCapability, split_comma.
+  rewrite split1_char by exact H2. rewrite Hc, Hx. reflexivity.
+Qed.
